@@ -448,8 +448,22 @@ func setProp(p mq.Packet, id byte, n uint32, b []byte, probe bool) bool {
 }
 
 // BuildWill constructs the *mq.Publish that is passed to Connect.SetWill.
+// WillExtras: whether BuildWill may also give the will message values that a
+// CONNECT does not carry (packet identifier, topic alias, subscription
+// identifiers - a PUBLISH built for other use and then attached as a will).
+// Such a will cannot round-trip, so only checks that do not compare will
+// values with a model switch it on (props.Configure: C10, C11, C13).
+var WillExtras = false
+
 func BuildWill(w *ref.Will) *mq.Publish {
 	p := mq.NewPublish()
+	if WillExtras && len(w.Topic)%3 == 1 {
+		p.SetPacketID(uint16(7 + len(w.Payload)))
+		p.SetTopicAlias(uint16(1 + len(w.Payload)%90))
+		if len(w.Payload)%2 == 0 {
+			p.AddSubscriptionID(uint32(3 + len(w.Topic)))
+		}
+	}
 	p.SetQoS(w.QoS)
 	p.SetRetain(w.Retain)
 	p.SetTopicName(string(w.Topic))
